@@ -619,19 +619,28 @@ class GroupModel:
             if ev.term[1][0] == "name" and ev.term[1][1] in self.prog.functions:
                 return self.prog.functions[ev.term[1][1]]
             return None
+        def bound_args(ev):
+            """a reducer made with functools.partial - partial(extreme, min)(values) is evaluated in line as extreme(min, values): the
+            arguments before the gathered values must be builtins (min, max, ...) or constants"""
+            return all(a[0] == "const" or (a[0] == "name" and a[1] in ("min", "max", "sum", "len", "any", "all")) for a in ev.term[2][:-1])
         for ev in it.events:
-            if ev.kind == "inline" and Lg in ev.loops and ev.value == per_group_value and len(ev.term[2]) == 1 and reducer_of(ev) is not None:
-                if self._gather_of(ev.term[2][0], col_data, Lg) is None or red_ev is None:
+            if ev.kind == "inline" and Lg in ev.loops and ev.value == per_group_value and len(ev.term[2]) >= 1 and not ev.term[3] \
+                    and bound_args(ev) and reducer_of(ev) is not None:
+                if self._gather_of(ev.term[2][-1], col_data, Lg) is None or red_ev is None:
                     red_ev = ev
         if red_ev is not None:
             out.reducer = reducer_of(red_ev)
             out.reducer_term = red_ev.term[1]
-            why = self._gather_of(red_ev.term[2][0], col_data, Lg)
+            why = self._gather_of(red_ev.term[2][-1], col_data, Lg)
             if why:
                 out.flow_problems.append(why)
             node = out.reducer.node
             params = [a.arg for a in node.args.args]
-            out.facts = facts_of(node, params[0] if params else "vals", self._helpers(), self._bindings(out.reducer))
+            k_vals = len(red_ev.term[2]) - 1
+            binds = dict(self._bindings(out.reducer))
+            for p_, a_ in zip(params[:k_vals], red_ev.term[2][:k_vals]):
+                binds[p_] = ast.Name(id=a_[1], ctx=ast.Load()) if a_[0] == "name" else ast.Constant(value=a_[2])
+            out.facts = facts_of(node, params[k_vals] if len(params) > k_vals else "vals", self._helpers(), binds)
         elif per_group_value is not None and per_group_value[0] == "call" and len(per_group_value[2]) == 1 and not per_group_value[3] \
                 and (out.kind == "apply" and per_group_value[1] == out.reducer_term):
             why = self._gather_of(per_group_value[2][0], col_data, Lg)
